@@ -39,6 +39,7 @@ type vpConn struct {
 	remote peer.ID
 	dir    network.Direction
 	proto  protocol.ID
+	ip     string // remote IPv4 address ("" = an address without IP component)
 }
 
 func (c *vpConn) RemotePeer() peer.ID { return c.remote }
@@ -48,7 +49,12 @@ func (c *vpConn) Stat() network.ConnStats {
 func (c *vpConn) GetStreams() []network.Stream {
 	return []network.Stream{&vpStream{proto: c.proto, conn: c}}
 }
-func (c *vpConn) RemoteMultiaddr() ma.Multiaddr      { return nil }
+func (c *vpConn) RemoteMultiaddr() ma.Multiaddr {
+	if c.ip == "" {
+		return nil
+	}
+	return ma.StringCast("/ip4/" + c.ip + "/tcp/4001")
+}
 func (c *vpConn) ID() string                         { return "conn-" + string(c.remote) }
 
 type vpNetwork struct {
@@ -56,6 +62,21 @@ type vpNetwork struct {
 	connected map[peer.ID]bool
 	dir       map[peer.ID]network.Direction // direction of the (single) connection
 	proto     map[peer.ID]protocol.ID       // protocol of its pubsub stream
+	ip        map[peer.ID]string            // remote IPv4 address of the connection ("" none)
+}
+
+// vpModel_getIPs is evaluated by the engine in place of peerScore.getIPs (multiaddr parsing of the live connections):
+// the addresses the fake network states. Natively the real getIPs parses the multiaddrs the fake connections carry.
+func vpModel_getIPs(ps *peerScore, p peer.ID) []string {
+	res := make([]string, 0, 1)
+	if ps.host == nil {
+		return nil
+	}
+	n := ps.host.Network().(*vpNetwork)
+	if n.connected[p] && n.ip[p] != "" {
+		res = append(res, n.ip[p])
+	}
+	return res
 }
 
 func (n *vpNetwork) Connectedness(p peer.ID) network.Connectedness {
@@ -69,7 +90,7 @@ func (n *vpNetwork) ConnsToPeer(p peer.ID) []network.Conn {
 	if !n.connected[p] {
 		return nil
 	}
-	return []network.Conn{&vpConn{remote: p, dir: n.dir[p], proto: n.proto[p]}}
+	return []network.Conn{&vpConn{remote: p, dir: n.dir[p], proto: n.proto[p], ip: n.ip[p]}}
 }
 
 func (n *vpNetwork) Peers() []peer.ID {
@@ -169,7 +190,7 @@ func (b *vpBus) Subscribe(eventType interface{}, opts ...event.SubscriptionOpt) 
 
 func vpNewHost(id string) *vpHost {
 	return &vpHost{id: peer.ID(id),
-		net: &vpNetwork{connected: map[peer.ID]bool{}, dir: map[peer.ID]network.Direction{}, proto: map[peer.ID]protocol.ID{}},
+		net: &vpNetwork{connected: map[peer.ID]bool{}, dir: map[peer.ID]network.Direction{}, proto: map[peer.ID]protocol.ID{}, ip: map[peer.ID]string{}},
 		cm:  &vpConnMgr{protected: map[peer.ID]map[string]bool{}, tags: map[peer.ID]map[string]int{}},
 		ps:  &vpPeerstore{}}
 }
